@@ -176,5 +176,15 @@ kf("C19", "C19-cr-line-comment", "a line comment terminated by a lone carriage r
 kf("C19", "C19-template-close-ge", "`vec2<f32>=...` (no space between a template list and '=') was rejected although the same text with a space was accepted",
    ["C19|join-template-close-=|rejected-after-edit(parse)|*"], "fixed:bb86276")
 
+# ---------------------------------------------------------------- C11 (diagnostics)
+kf("C11", "C11-silent-expect", "a missing ')' ']' or '>' was silently accepted by Parser.expect: `f(1, 2;`, `o[0;`, `@group(0 @binding(0)` compiled, or the error was reported at an unrelated earlier position",
+   ["C11|unbalanced-delimiter|*"], "fixed:dd2be53")
+kf("C11", "C11-const-div-zero-contexts", "integer division/remainder by zero is not diagnosed when the constant expression is a @workgroup_size argument or an array size (`@workgroup_size((1 / 0))`, `array<i32, (3 / 0)>`): the program compiles",
+   ["C11|const-div-zero@workgroup_size|accepted|*", "C11|const-mod-zero@workgroup_size|accepted|*", "C11|const-div-zero@array-size|accepted|*", "C11|const-mod-zero@array-size|accepted|*"])
+kf("C11", "C11-call-arg-type-unchecked", "a user-function call whose argument has the wrong concrete type is accepted: `f(1.5f, c1)` for `fn f(c0: u32, c1: u32)`; only bool/non-bool mismatches are diagnosed",
+   ["C11|call-arg-type|accepted|*"])
+kf("C11", "C11-negative-array-size", "`array<T, -1>` is accepted in an alias or struct member (a non-positive size is only diagnosed for 0)",
+   ["C11|array-size-negative|accepted|*"])
+
 json.dump(K, open("known_findings.json", "w"), indent=1)
 print(len(K), "entries")
